@@ -11,7 +11,7 @@ EXPLANATION = (
     "ErrorKind to Error::new/for_app; the constructor->kind table is checked against the name-derived / documented table. "
     "R10.3: in Parser::verify_num_args every error constructor is guarded by the comparison that justifies it "
     "(operator and operand roles). R10.4: did_you_mean only returns strings taken from the iterated candidates and its "
-    "call sites pass iterators over defined names. R10.4b the `For more information, try '<x>'` hint names something that exists: error::format::get_help_flag returns `--help` only when the help flag is not disabled, a user help flag when one is defined, `help` only when the command has subcommands and the help subcommand is not disabled. R10.5 (necessary for `valid lines are not rejected` by the count check): "
+    "call sites pass iterators over defined names. R10.4b the `For more information, try '<x>'` hint names something that exists: error::format::get_help_flag returns `--help` only when the help flag is not disabled, a user help flag when one is defined, `help` only when the command has subcommands and the help subcommand is not disabled. R10.7 MissingRequiredArgument names only arguments that are required: the display completion of preceding positionals is bounded by highest_index, which is updated only on the !is_last_set edge. R10.5 (necessary for `valid lines are not rejected` by the count check): "
     "in Parser::parse the pending values of a positional are resolved before the next positional token unless that token "
     "belongs to the same argument AND the argument is multi-valued (is_multiple_values_set) — pooling values of separate "
     "occurrences of a single-valued positional would be counted as one occurrence by verify_num_args. R10.6 (sibling "
@@ -250,3 +250,14 @@ def run(ctx):
             ok, why = False, "unrecognised hint %s" % v[:60]
         res.check(ok, "R10.4", "help-hint|" + ("--help" if "'--help'" in v else "help" if "'help'" in v else "user" if "get_user_help_flag" in v else "other"), "%s bb%d" % (ghf.where(), i),
                   "hint %s only when it exists" % v[:40], why + " (guards %s)" % gl)
+
+
+    # ---- R10.7 the `also missing` display completion never counts a `last` positional: highest_index grows only on the !is_last_set edge
+    vq = fx.body("clap_builder::parser::validator::Validator::validate_required")
+    his = vq.locals_named("highest_index")
+    res.floor("R10.7", "`highest_index` local in validate_required", len(his), 1)
+    ups = [d for l in his for d in vq.def_sites(l) if not (isinstance(d[3], dict) and d[3]["k"] == "use" and op_int(d[3]["op"]) == 0)]
+    res.floor("R10.7", "updates of highest_index", len(ups), 2)
+    for d in ups:
+        res.check(any(re.match(r"^F:is_last_set\(", g) for g in guard_strs(vq, d[0])), "R10.7", "highest-index-ignores-last", "%s bb%d" % (vq.where(), d[0]),
+                  "highest_index updated only for arguments that are not `last`", "highest_index also counts a missing `last` positional: optional positionals before it are reported as missing required arguments although no rule requires them")
